@@ -104,6 +104,23 @@ def long_tail_worker(chunk: List[History]) -> Stats:
     return st
 
 
+def bundled_worker(chunk: List[Tuple[str, str]]) -> Stats:
+    """Every cut of the inputs bundled with RP2 (input/*.ods), per asset, under the four methods and the input's own schedule."""
+    from rp2verif import bundled
+    from rp2verif.lotrun import single_schedules
+
+    st = Stats()
+    runner = Runner()
+    data = bundled.load()
+    for fname, asset in chunk:
+        specs = data[fname][asset]
+        own = bundled.schedule_of(fname)
+        for sch in single_schedules() + ([tuple((int(y), m) for y, m in own)] if own else []):
+            st.inc("bundled_nodes")
+            judge_node(st, runner, (), specs, sch, name=f"bundled input {fname}.ods, asset {asset} ({len(specs)} transactions)")
+    return st
+
+
 class Runner:
     """Runs of prefixes are shared along a depth-first walk (a prefix is the truncation of all its extensions)."""
 
@@ -128,24 +145,25 @@ class Runner:
 
 
 def judge_node(st: Stats, runner: Runner, hist: History, specs: List[Dict[str, Any]], sch: Sequence[Tuple[int, str]], only_cut: Optional[int] = None,
-               edge_only: bool = False) -> None:
+               edge_only: bool = False, name: Optional[str] = None) -> None:
     from rp2verif.seams import compute as C
 
     st.inc("states")
     st.inc(f"states_depth_{len(hist)}")
-    base = {"history": H.hist_str(hist), "hist": hist, "specs": specs, "schedule": list(sch)}
+    hs = name or H.hist_str(hist)
+    base = {"history": hs, "hist": hist, "specs": specs, "schedule": list(sch)}
     full = C.run_window(specs, sch)
     if not full.ok:
         st.violation(dict(base, signature=f"C09 valid history rejected / {type(full.error).__name__}",
-                          what=f"{sched_str(sch)}: {H.hist_str(hist)} :: {type(full.error).__name__}: {full.error}"))
+                          what=f"{sched_str(sch)}: {hs} :: {type(full.error).__name__}: {full.error}"))
         return
     D, derr = C.try_dump(full.computed)
     if D is None:
-        st.violation(dict(base, signature="C09 figures unreadable", what=f"{sched_str(sch)}: {H.hist_str(hist)} :: {derr}"))
+        st.violation(dict(base, signature="C09 figures unreadable", what=f"{sched_str(sch)}: {hs} :: {derr}"))
         return
     lp = label_problems(D["detail"])
     if lp:
-        st.violation(dict(base, signature="C09 fraction labels", what=f"{sched_str(sch)}: {H.hist_str(hist)} :: {lp}"))
+        st.violation(dict(base, signature="C09 fraction labels", what=f"{sched_str(sch)}: {hs} :: {lp}"))
     ts = [parse_ts(s["timestamp"]) for s in specs]
     order = sorted(range(len(specs)), key=lambda i: ts[i])
     chron = [specs[i] for i in order]
@@ -159,7 +177,7 @@ def judge_node(st: Stats, runner: Runner, hist: History, specs: List[Dict[str, A
             continue
         st.inc("transitions")
         tout, P = runner.truncated(C, chron, k, sch)
-        tag = f"{sched_str(sch)}: {H.hist_str(hist)} cut after item {k}"
+        tag = f"{sched_str(sch)}: {hs} cut after item {k}"
         if not tout.ok:
             st.violation(dict(base, cut=k, signature=f"C09 truncated history rejected / {type(tout.error).__name__}",
                               what=f"{tag} :: truncated history rejected: {tout.error}"))
@@ -314,6 +332,17 @@ def main(tier: str, budget_s: Optional[float] = None) -> int:
         total.merge(t)
         info += i
         complete = complete and c
+    from rp2verif import bundled as _B
+
+    bt = _B.sheets()
+    tb = time.time()
+    bres, bdone = common.pmap(bundled_worker, [[x] for x in bt], deadline=max(deadline, time.time() + 90))
+    for r in bres:
+        if r is not None:
+            total.merge(r)
+    complete = complete and bdone == len(bt)
+    info.append({"phase": "inputs bundled with RP2: every cut of every asset sheet of the 9 files x 4 methods (+ the file's own schedule)", "asset_sheets": len(bt),
+                 "executions": total.get("bundled_nodes"), "wall_s": round(time.time() - tb, 1)})
     lt = long_tail_histories()
     nlt = max(1, min(len(lt), common.NPROC * 2))
     lres, ldone = common.pmap(long_tail_worker, [lt[i::nlt] for i in range(nlt)], deadline=deadline)
